@@ -76,18 +76,28 @@ def stencil_facts(rep, prop, public, kern, k, label):
         ok = set(byaxis) == {0, 1}
         if ok:
             ly, lx = byaxis[0], byaxis[1]
-            yv, xv = Rat.sym(ly.var), Rat.sym(lx.var)
             one = Rat.const(1)
-            r_ok = (ly.lo == one and lx.lo == one and ly.step == one and lx.step == one and
-                    ly.hi == Rat.atom(App('shape', [data, 0])) - one and
-                    lx.hi == Rat.atom(App('shape', [data, 1])) - one)
+            # the cell a pass of the loops works on is the one it stores: (row loop variable + const, column loop
+            # variable + const) - rows walked as zipped views start their counter at 0 for row 1
+            cy, cx = s.idx[0] - Rat.sym(ly.var), s.idx[1] - Rat.sym(lx.var)
+            i_ok = cy.is_const() and cx.is_const()
+            rep.add('L1-store', kern, entry, norm(s.node), s.node.lineno, i_ok,
+                    'the result of a pass of the two loops must be stored at (row variable + const, column variable + const); '
+                    'found index (%r, %r)' % s.idx)
+            if not i_ok:
+                continue
+            if yv is not None and (s.idx[0] != yv or s.idx[1] != xv):
+                rep.add('L1-store', kern, entry, norm(s.node), s.node.lineno, False,
+                        'all per-cell stores of one pass must address the same cell; found (%r, %r) and (%r, %r)' % (yv, xv, s.idx[0], s.idx[1]))
+                continue
+            yv, xv = s.idx[0], s.idx[1]
+            r_ok = (ly.lo + cy == one and lx.lo + cx == one and ly.step == one and lx.step == one and
+                    ly.hi + cy == Rat.atom(App('shape', [data, 0])) - one and
+                    lx.hi + cx == Rat.atom(App('shape', [data, 1])) - one)
             rep.add('L1-loops', kern, entry, 'rows %s cols %s' % (norm(ly.node.iter), norm(lx.node.iter)),
                     ly.node.lineno, r_ok, 'loops must cover exactly the interior 1..n-2 on both axes '
                     '(border cells NaN, every interior cell computed); found rows [%r,%r) cols [%r,%r)'
-                    % (ly.lo, ly.hi, lx.lo, lx.hi))
-            i_ok = s.idx[0] == yv and s.idx[1] == xv
-            rep.add('L1-store', kern, entry, norm(s.node), s.node.lineno, i_ok,
-                    'the result of cell (y, x) must be stored at out[y, x]; found index (%r, %r)' % s.idx)
+                    % (ly.lo + cy, ly.hi + cy, lx.lo + cx, lx.hi + cx))
         else:
             rep.add('L1-loops', kern, entry, norm(s.node), s.node.lineno, False,
                     'could not associate the two loops with the two axes of %s' % data)
